@@ -185,6 +185,7 @@ impl Exec {
                 vec![op.clone()]
             }
             "hash_wf" | "note" | "abi_const" | "abi_struct" | "to_str" | "to_string" => vec![op.clone()],
+            "misc" => vec![crate::misc::misc(op)],
             "read_int" => vec![self.read_int(op)],
             "parse_at" => vec![self.parse_at(op)],
             "tbl" => self.tbl(op),
